@@ -321,6 +321,17 @@ def selGets (p : Prog) : List Sel → Val → M Val
   | [], v => pure v
   | s :: ss, v => do selGets p ss (← selGet p v s)
 
+/-- is this value a `Vec`?  `v(i)` on a Vec is a call of the ordinary method `Vec::get`, which returns a COPY of the
+    element; only `Array` elements (and variables, fields) are places (`dora-frontend/src/generator/expr/ref_.rs`,
+    `gen_expr_as_ref`: `is_array_get` → element reference, any other call → `gen_temporary_expr_as_ref`) -/
+def isVecRef (a : Val) : M Bool :=
+  match a with
+  | .ref ad => do
+    match ← heapGet ad with
+    | .vec _ => pure true
+    | _ => pure false
+  | _ => pure false
+
 def storeAt (p : Prog) (b : Base) (sels : List Sel) (nv : Val) : M Unit := do
   match sels with
   | [] => baseSet b nv
@@ -330,7 +341,19 @@ def storeAt (p : Prog) (b : Base) (sels : List Sel) (nv : Val) : M Unit := do
     match b, cur with
     | .value _, _ => pure ()          -- path went through a reference; heap already updated
     | _, .ref _ => pure ()
+    | .elem a _, _ => do
+      -- `w(i).f = x` with a Vec `w` stores into the temporary copy `Vec::get` returned: no effect on the vector
+      if ← isVecRef a then pure () else baseSet b upd
     | _, _ => baseSet b upd
+
+/-- write the final `self` of a `mutating` method back to where the receiver came from; a receiver that is the result
+    of a call (`w(i)` on a Vec, any other expression) is a temporary -/
+def storeBack (p : Prog) (b : Base) (sels : List Sel) (nv : Val) : M Unit := do
+  match b, sels with
+  | .elem a _, [] => do
+    if ← isVecRef a then pure () else baseSet b nv
+  | .value _, [] => pure ()
+  | _, _ => storeAt p b sels nv
 
 /-! ## primitive operators -/
 
@@ -437,6 +460,11 @@ def primMeth (m : String) (recv : Val) (args : List Val) : M Val := do
     | "first", .vec vs, [] => pure (match vs[0]? with | some v => someV v | none => noneV)
     | "last", .vec vs, [] => pure (match vs.back? with | some v => someV v | none => noneV)
     | "clear", .vec _, [] => do heapSet a (.vec #[]); pure .unit
+    -- `Array::clone`, `Vec::clone`, `Vec::to_array`: a new object with the same elements (element values are copied:
+    -- references stay shared, tuples / structs are values)
+    | "clone", .arr vs, [] => alloc (.arr vs)
+    | "clone", .vec vs, [] => alloc (.vec vs)
+    | "to_array", .vec vs, [] => alloc (.arr vs)
     | "get", .arr _, [i] => elemGet recv i
     | "get", .vec _, [i] => elemGet recv i
     | "set", .arr _, [i, v] => do elemSet recv i v; pure .unit
@@ -577,6 +605,15 @@ def callClosure (rec : Rec) (f : Val) (args : List Val) : M Val := do
     | _ => stuck "call of a non-lambda"
   | _ => stuck "call of a non-lambda"
 
+/-- `Array[T]::fill_with(len, f)`: `f(0)`, `f(1)`, … `f(len-1)` in this order, each exactly once
+    (`pkgs/std/collections.dora`: a `while i < len` loop storing `fct(i)`) -/
+def fillWith (rec : Rec) (f : Val) : Nat → Nat → M (List Val)
+  | _, 0 => pure []
+  | i, k + 1 => do
+    let v ← callClosure rec f [.int .w64 i]
+    let vs ← fillWith rec f (i + 1) k
+    pure (v :: vs)
+
 /-- resolve the root of an l-value / receiver path -/
 def evalBase (rec : Rec) (root : Expr) (env : Env) : M Base :=
   match root with
@@ -633,7 +670,14 @@ def step (p : Prog) (rec : Rec) (e : Expr) (env : Env) : M Val :=
     let vs ← evalList rec args env
     match p.findUserStatic ty f with
     | some d => callDecl rec d none vs
-    | none => primStatic ty f vs
+    | none =>
+      match ty, f, vs with
+      | .named "Array" [_], "fill_with", [.int .w64 n, fv] =>
+        if 0 ≤ n ∧ n ≤ 1000000 then do
+          let vs ← fillWith rec fv 0 n.toNat
+          alloc (.arr vs.toArray)
+        else stuck "array length outside the modelled range"
+      | _, _, _ => primStatic ty f vs
   | .meth m recv args => do
     let (root, sels) := lvSplit recv
     let base ← evalBase rec root env
@@ -646,7 +690,7 @@ def step (p : Prog) (rec : Rec) (e : Expr) (env : Env) : M Val :=
       match d.selfKind with
       | .mutating => do
         let (r, self') ← callMutating rec d rv vs
-        storeAt p base sels self'
+        storeBack p base sels self'
         pure r
       | _ => callDecl rec d (some rv) vs
     | none => primMeth m rv vs
